@@ -307,6 +307,60 @@ theorem fresh_system_defaults {net : Network} {space : Space} {u : Sys} {s : Sys
       · cases h
       · cases h; simp_all
 
+/-! ## constructor defaults of the spaces -/
+
+/-- the documented defaults: a 1 × 1 × 1 grid, environment 0, cell volume the NUMBER 1 (hence one cubic unit of the space's
+own units system), reflecting boundaries; graph node: volume 1, environment 0; edge: surface 1, distance 1 -/
+theorem space_constructor_defaults :
+    gridCtorDefaults = [("w", "1"), ("h", "1"), ("d", "1"), ("cell_env", "0"), ("cell_vol", "1"), ("boundary_conditions", "None"),
+      ("units_system", "UnitsSystem()")] ∧
+    graphNodeCtorDefaults = [("volume", "1"), ("environment", "0"), ("units_system", "UnitsSystem()")] ∧
+    graphEdgeCtorDefaults = [("i", "<required>"), ("j", "<required>"), ("surface", "1"), ("distance", "1"), ("units_system", "UnitsSystem()")] ∧
+    graphCtorDefaults = [("nodes", "[]"), ("edges", "[]"), ("units_system", "UnitsSystem()")] ∧
+    systemCtorDefaults = [("network", "<required>"), ("space", "RDGridSpace()"), ("state", "None"), ("chemostats", "None"),
+      ("units_system", "UnitsSystem()")] ∧
+    gridDefaultCellVol = some 1 ∧ gridDefaultCellEnv = some 0 ∧ gridDefaultW = some 1 ∧ gridDefaultH = some 1 ∧ gridDefaultD = some 1 ∧
+    nodeDefaultVolume = some 1 ∧ nodeDefaultEnv = some 0 ∧
+    gridDefaultBoundary = [("x", "reflecting"), ("y", "reflecting"), ("z", "reflecting")] := by decide +kernel
+
+/-- a grid built without any argument but the units system: one cell, environment 0, reflecting, and a cell volume of 1
+in the space's OWN units system, whatever that system is -/
+theorem default_grid (sys : Sys) :
+    mkGridSpace none none none none none none none none sys =
+      .ok (.grid ⟨1, 1, 1, false, false, false⟩ ⟨1, ⟨sys, Dim.volume⟩⟩ [0] sys) := by
+  obtain ⟨_, _, _, _, _, hv, he, hw, hh, hd, _, _, hb⟩ := space_constructor_defaults
+  have f1 : (Rat.floor (1 : Rat)).toNat = 1 := by decide +kernel
+  have f0 : Rat.floor (0 : Rat) = 0 := by decide +kernel
+  have lx : (List.lookup "x" [("x", "reflecting"), ("y", "reflecting"), ("z", "reflecting")] == some "periodical") = false := by
+    decide +kernel
+  have ly : (List.lookup "y" [("x", "reflecting"), ("y", "reflecting"), ("z", "reflecting")] == some "periodical") = false := by
+    decide +kernel
+  have lz : (List.lookup "z" [("x", "reflecting"), ("y", "reflecting"), ("z", "reflecting")] == some "periodical") = false := by
+    decide +kernel
+  simp only [mkGridSpace, hv, he, hw, hh, hd, hb, Option.getD, defaultNat, QIn.toUVal, f1, f0, lx, ly, lz, GridShape.size]
+  rfl
+
+/-- an omitted cell volume is 1 cubic space unit also when the other arguments are given: its SI value is the SI value of
+the cube of the space's length unit -/
+theorem default_cell_volume (w h d : Option Nat) (px py pz : Option Bool) (env : Option (List Int)) (sys : Sys) :
+    ∃ g e, mkGridSpace w h d px py pz none env sys = .ok (.grid g ⟨1, ⟨sys, Dim.volume⟩⟩ e sys) ∧
+      (UVal.mk 1 ⟨sys, Dim.volume⟩).si = siFactor sys Dim.volume := by
+  obtain ⟨_, _, _, _, _, hv, _⟩ := space_constructor_defaults
+  simp only [mkGridSpace, hv, Option.getD, QIn.toUVal]
+  exact ⟨_, _, rfl, by simp [UVal.si]⟩
+
+theorem default_graph_node (sys : Sys) : mkGraphNode none none sys = .ok (⟨1, ⟨sys, Dim.volume⟩⟩, 0) := by
+  obtain ⟨_, _, _, _, _, _, _, _, _, _, hv, he, _⟩ := space_constructor_defaults
+  have f0 : Rat.floor (0 : Rat) = 0 := by decide +kernel
+  simp only [mkGraphNode, hv, he, Option.getD, QIn.toUVal, f0]
+
+/-- `copy()` of a system and of its parts duplicates the WHOLE object (deep copy): the model's value semantics — a write
+on one system, network or space never shows in another — is what the code implements for copies -/
+theorem copies_are_deep :
+    systemCopyBody = ["returncpy.deepcopy(self)"] ∧ gridCopyBody = ["returncpy.deepcopy(self)"] ∧
+    graphCopyBody = ["returncpy.deepcopy(self)"] ∧ networkCopyBody = ["returncpy.deepcopy(self)"] ∧
+    speciesCopyBody = ["returncpy.deepcopy(self)"] := by decide +kernel
+
 /-! ## non-vacuity -/
 
 example : stateIndex 4 1 2 = 6 ∧ stateIndex 4 0 3 = 3 := by decide
